@@ -12,6 +12,10 @@ pub struct Outcome {
     pub nontrivial: bool,
     /// named counters (property specific)
     pub counters: Vec<(&'static str, u64)>,
+    /// per step: (transition labels, callback counts per class); filled when the header has `trace`
+    pub per_step: Vec<(u32, [u64; crate::world::NCLASS])>,
+    /// exact sub-case that failed, when the evaluation derives several runs from one case
+    pub repro: Option<crate::case::Case>,
 }
 
 impl Outcome {
